@@ -6,6 +6,7 @@ import (
 	"context"
 	"fmt"
 	"sync"
+	"sync/atomic"
 	"time"
 )
 
@@ -74,6 +75,31 @@ func chanDoGetMode(c *Channel, timeout time.Duration, quiescent bool) []int {
 	if r.err == context.Canceled {
 		// both the caller's context and the Channel are cancelled: the Channel was closed meanwhile
 		return []int{2}
+	}
+	return []int{2}
+}
+
+// flipCtx reports live on the first Err() call and cancelled afterwards: the caller's context is cancelled right after
+// Get's up-front check. A Get that finds a value must still return it (the value has left the source).
+type flipCtx struct {
+	context.Context
+	n atomic.Int32
+}
+
+func (f *flipCtx) Err() error {
+	if f.n.Add(1) == 1 {
+		return nil
+	}
+	return context.Canceled
+}
+
+func chanDoGetFlip(c *Channel) []int {
+	v, err := c.Get(&flipCtx{Context: context.Background()})
+	if err == nil {
+		return []int{0, v.(int)}
+	}
+	if err == context.Canceled && c.ctx.Err() == nil {
+		return []int{1} // found nothing on its single attempt, then saw the cancellation
 	}
 	return []int{2}
 }
@@ -153,7 +179,13 @@ func chanK1Case(h *hctx, id int) {
 				}
 				continue
 			}
-			o := chanDoGetMode(c, chanGetTimeout, true)
+			var o []int
+			if h.rng.Intn(6) == 0 {
+				o = chanDoGetFlip(c)
+				h.count("get_flipctx", 1)
+			} else {
+				o = chanDoGetMode(c, chanGetTimeout, true)
+			}
 			ops = append(ops, []int{0})
 			outs = append(outs, o)
 			if o[0] == 0 {
